@@ -289,6 +289,19 @@ def run(F, rep):
     if n_it < 2:
         raise AnalysisBroken('iterators into mEquivalentVariables: %d found, 3 confirmed' % n_it)
 
+    rep.rule('C18.F1', 'the equivalence queries of Variable answer from the equivalence lists alone: among the data members of VariableImpl, hasEquivalentVariable / hasDirectEquivalentVariable / hasIndirectEquivalentVariable / '
+                       'findEquivalentVariable (and what they call on this object) read only mEquivalentVariables - the id maps are bookkeeping for printing and are not cleared when equivalences are removed')
+    import fields as _f18
+    n_f = 0
+    for g in F.funcs.values():
+        if g.cls == 'libcellml::Variable::VariableImpl' and g.name in ('hasEquivalentVariable', 'hasDirectEquivalentVariable', 'hasIndirectEquivalentVariable', 'findEquivalentVariable'):
+            n_f += 1
+            rd = {x for x in _f18.this_reads(F, g) if x.startswith('m')}
+            extra = sorted(rd - {'mEquivalentVariables', 'mVariable'})
+            rep.check(not extra, 'C18.F1', g.short + '/%d' % len(g.params), g.where(), '%s reads %s: its answer can come from bookkeeping that is not kept in step with the connection graph' % (g.short, extra), 'reads %s' % sorted(rd))
+    if n_f < 3:
+        raise AnalysisBroken('C18.F1: equivalence queries of VariableImpl: %d found, 4 confirmed' % n_f)
+
     rep.rule('C18.Q1', 'the equivalence queries of Variable are pure: no const member function of Variable/VariableImpl writes a data member (a per-variable memo of a property of the whole connection graph is stale as soon as two OTHER variables are connected or disconnected)')
     import fields
     n_q = 0
